@@ -22,8 +22,9 @@ ASSUMPTIONS = [
 
 def cubes(tier, has_fc):
     out = []
-    sizes = [(3, 1, 1)] if tier == 'quick' else [(3, 2, 1), (4, 1, 1)]
-    for (N, D, I) in sizes:
+    # N=3,D=1,I=1 costs up to ~8 min of z3 per obligation; N=3,D=2 / N=4,I=1 did not finish in the per-query budget, so the thorough
+    # tier deepens by deciding the identity obligation on every cube and by the four-specifier worlds below instead
+    for (N, D, I) in [(3, 1, 1)]:
         for kind in range(3):
             for fd in (False, True):
                 cjs = [0] if kind == 1 else [0, 1, 2]
@@ -36,10 +37,15 @@ def cubes(tier, has_fc):
     # per-edge kernel: check_resolution on an arbitrary (module, resolution) pair, larger universe (no walk is unrolled)
     for fd in (False, True):
         out.append({'edge': True, 'N': 6 if tier == 'quick' else 8, 'D': 1, 'I': 0, 'fd': fd, 'kind': 0, 'cj': 0, 'pfc': False, 'valid': False})
+    # one specifier more, for shapes that need four (a module importing through a two-hop redirect chain)
     if tier == 'quick':
-        # one specifier more, for shapes that need four (a module importing through a two-hop redirect chain): dynamic imports followed
         for kind in range(3):
             out.append({'N': 4, 'D': 1, 'I': 0, 'kind': kind, 'fd': True, 'cj': 0, 'pfc': False, 'valid': False, 'identity': False})
+    else:
+        for kind in range(3):
+            for fd in (False, True):
+                for cj in ([0] if kind == 1 else [0, 1, 2]):
+                    out.append({'N': 4, 'D': 1, 'I': 0, 'kind': kind, 'fd': fd, 'cj': cj, 'pfc': False, 'valid': False, 'identity': False})
     return out
 
 def cube_name(c):
